@@ -55,6 +55,13 @@ pub fn run_c05(env: &mut Env) -> Outcome {
             params.domain_params[i] = *ctx.pick("dp_value", &[0u32, 1, 2, 7, 8, 9, 0x7f, 0x80, 0xff, 0x100, 0xffff, 0x10000, 0x7fffffff, 0xffffffff]);
             ctx.fault("hostile_domain_parameter");
         }
+        if ctx.chance("license_refusal", 1, 8) {
+            // a licence refusal (any defined error code / transition other than the accepted pair) with its blob
+            params.license_kind = 1;
+            params.license_error_code = *ctx.pick("lic_code", &[1u32, 2, 3, 4, 6, 8, 0xb, 0xc, 7]);
+            params.license_state_transition = *ctx.pick("lic_transition", &[1u32, 2, 3, 4]);
+            ctx.fault("license_refusal");
+        }
         if ctx.chance("license_other_kind", 1, 3) {
             params.license_kind = 2 + ctx.choose("license_kind_x", 3) as u8;
         }
@@ -66,7 +73,29 @@ pub fn run_c05(env: &mut Env) -> Outcome {
         ctx.key_add(t1 as u64);
         (cfg, params, net, t1, t2)
     };
+    let flood = {
+        let mut ctx = ctxrc.borrow_mut();
+        if ctx.chance("channel_flood", 1, 40) {
+            let chan = 1004 + ctx.choose("flood_chan", 8) as u16;
+            let n = *ctx.pick("flood_n", &[3usize, 40, 2000, 30000, 150000]);
+            ctx.fault("channel_flood");
+            ctx.key_add(n as u64);
+            ctx.step_budget = 8_000_000;
+            Some((chan, n))
+        } else {
+            None
+        }
+    };
+    let mut params = params;
+    if let Some((chan, _)) = flood {
+        params.announced_channels = vec![chan];
+        if params.io_channel == chan || params.user_id == chan { params.announced_channels = vec![chan + 20]; }
+    }
     let world = World::new(ctxrc.clone(), params.clone(), net);
+    if let Some((_, n)) = flood {
+        let c = params.announced_channels[0];
+        world.server.borrow_mut().pre_license_flood = Some((c, n));
+    }
     if cfg.nla {
         crate::scen::install_nla(&world, &cfg);
     }
@@ -100,7 +129,7 @@ pub fn run_c05(env: &mut Env) -> Outcome {
     if let Some(o) = check_resources("c05", &ctxrc, &st, total, "connect") {
         return o;
     }
-    let fired = !descs.borrow().is_empty();
+    let fired = !descs.borrow().is_empty() || flood.is_some();
     let mut ctx = ctxrc.borrow_mut();
     ctx.ev("drv", format!("connect outcome {:?}; max single allocation {} bytes", s.connect_result, st.max_single));
     if s.connect_result.is_ok() {
@@ -193,7 +222,7 @@ pub fn run_c05_direct(env: &mut Env) -> Outcome {
 
 fn hostile_base(ctx: &mut Ctx, p: &ServerParams, share_id: u32) -> (String, Wr) {
     let uid = p.user_id;
-    let kind = ctx.choose("base_pdu", 16);
+    let kind = ctx.choose("base_pdu", 18);
     let pgen = if ctx.chance("caps_gen", 1, 2) { ServerParams::generate(ctx, 1) } else { p.clone() };
     let mut pp = p.clone();
     pp.caps = pgen.caps;
@@ -232,6 +261,25 @@ fn hostile_base(ctx: &mut Ctx, p: &ServerParams, share_id: u32) -> (String, Wr) 
             ("multi-share-control".into(), build::send_data_indication(p, &w))
         }
         11 => ("disconnect-ultimatum".into(), build::mcs_disconnect_ultimatum()),
+        16 => {
+            // PDU kinds only a client sends, well formed: confirm-active
+            let mut caps = Wr::new();
+            for (t, body) in pp.caps.iter().take(6) {
+                caps.u16le("cap.type", *t).u16le("cap.length", (body.len() + 4) as u16).bytes("cap.body", body);
+            }
+            let mut b = Wr::new();
+            b.u32le("ca.shareId", share_id).u16le("ca.originatorId", 0x03ea).u16le("ca.lengthSourceDescriptor", 4).u16le("ca.lengthCombinedCapabilities", (caps.len() + 4) as u16)
+                .bytes("ca.sourceDescriptor", b"RDP\0").u16le("ca.numberCapabilities", pp.caps.len().min(6) as u16).u16le("ca.pad2Octets", 0);
+            b.append(&caps);
+            ("confirm-active-from-server".into(), build::send_data_indication(p, &build::share_control(p, 0x13, &b)))
+        }
+        17 => {
+            // ... and client data PDUs: input, font-list, suppress-output, refresh-rect
+            let t2 = *ctx.pick("client_type2", &[0x1cu8, 0x27, 0x23, 0x21, 0x24, 0x2b]);
+            let mut w = Wr::new();
+            w.u16le("x.numEvents", 1).u16le("x.pad", 0).u32le("x.time", 0).u16le("x.messageType", 0x8001).u16le("x.flags", 0x0800).u16le("x.x", 1).u16le("x.y", 2);
+            ("client-data-pdu-from-server".into(), build::share_data(p, share_id, t2, &w))
+        }
         _ => {
             let (u, _) = crate::scen::c10::gen_fastpath_pdu(ctx, 600, ctx_flag(kind));
             ("fast-path".into(), build::fastpath(&u, kind == 15, (kind % 4) as u8 & if kind == 14 { 3 } else { 0 }))
@@ -323,6 +371,7 @@ pub fn run_c07(env: &mut Env) -> Outcome {
         let mut cfg = ClientCfg::plain();
         cfg.nla = true;
         cfg.use_hash = ctx.chance("use_hash", 1, 4);
+        if ctx.chance("empty_domain", 1, 3) { cfg.domain = String::new(); }
         let mut params = ServerParams::default_for(2);
         params.cert = ctx.choose("cert", crate::refsrv::server::FIXTURES.len() as u64) as usize;
         let net = gen_benign_net(&mut ctx);
@@ -360,7 +409,7 @@ pub fn run_c07(env: &mut Env) -> Outcome {
             }
             (2, 0) => {
                 // special CHALLENGE shapes
-                let shape = ctx.choose("challenge_shape", 11);
+                let shape = ctx.choose("challenge_shape", 12);
                 let mut t = token.to_vec();
                 let desc;
                 match shape {
@@ -373,6 +422,19 @@ pub fn run_c07(env: &mut Env) -> Outcome {
                     4 => { desc = "avlen-beyond-buffer"; let w = mutate::challenge_fieldmap(&t); if let Some(f) = w.fields.iter().find(|f| f.name == "challenge.av.len") { t[f.off] = 0xff; t[f.off + 1] = 0xff; } }
                     5 => { desc = "unknown-av-id"; let w = mutate::challenge_fieldmap(&t); if let Some(f) = w.fields.iter().find(|f| f.name == "challenge.av.id") { let v = *ctx.pick("av_id_v", &[0x0bu16, 0x0c, 0x10, 0xffff, 0x8000]); t[f.off] = v as u8; t[f.off + 1] = (v >> 8) as u8; } }
                     6 => { desc = "empty-token"; t.clear(); }
+                    11 => {
+                        // OEM strings, target type "domain", and a target name that is neither ASCII nor UTF-8
+                        desc = "oem-domain-target";
+                        if t.len() >= 24 {
+                            t[20] = (t[20] & !0x01) | 0x02;
+                            t[22] = (t[22] & !0x02) | 0x01;
+                            let off = u32::from_le_bytes([t[16], t[17], t[18], t[19]]) as usize;
+                            let len = u16::from_le_bytes([t[12], t[13]]) as usize;
+                            if len > 0 && off + len <= t.len() {
+                                for i in 0..len { t[off + i] = if i % 2 == 0 { 0xdc } else { 0x4e }; }
+                            }
+                        }
+                    }
                     10 => {
                         // a long list of tokens (the genuine CHALLENGE first)
                         let n = 2 + ctx.choose("n_tokens", 40) as usize;
@@ -452,6 +514,29 @@ pub fn run_c07(env: &mut Env) -> Outcome {
         };
         Some(out)
     }));
+    // instead: an honest exchange whose final reply is sealed correctly but carries an odd plaintext
+    if ctxrc.borrow_mut().chance("sealed_odd_plaintext", 1, 6) {
+        nla.ts_mutator = None;
+        let f3 = fired.clone();
+        nla.final_reply = Some(Box::new(move |ctx: &mut Ctx, fc: &mut crate::refsrv::nla::FinalCtx| {
+            let plus1 = crate::refsrv::nla::increment_le(fc.honest_key);
+            let plain: Vec<u8> = match ctx.choose("odd_plaintext", 6) {
+                0 => Vec::new(),
+                1 => plus1[..ctx.choose("odd_prefix", plus1.len() as u64) as usize].to_vec(),
+                2 => { let mut p = plus1.clone(); p.extend(std::iter::repeat(0u8).take(1 + ctx.choose("odd_extra", 600) as usize)); p }
+                3 => { let n = ctx.choose("odd_len", 1200) as usize; ctx.bytes("odd_bytes", n.min(16)).into_iter().cycle().take(n).collect() }
+                4 => vec![0xff; plus1.len()],
+                _ => plus1[1..].to_vec(),
+            };
+            ctx.fault("sealed_odd_plaintext");
+            ctx.key_str("sealed_odd_plaintext");
+            ctx.key_add(plain.len() as u64 / 16);
+            ctx.ev("fault", format!("final reply correctly sealed over {} odd plaintext bytes", plain.len()));
+            f3.borrow_mut().push("sealed-odd-plaintext".to_string());
+            let t = fc.seal.seal(&plain);
+            vec![crate::refsrv::cssp::build_ts_request(&crate::refsrv::cssp::TsRequest { version: fc.cssp_version, nego_tokens: vec![], auth_info: None, pub_key_auth: Some(t), error_code: None, client_nonce: None })]
+        }));
+    }
     world.server.borrow_mut().nla = Some(Box::new(nla));
     alloc::arm();
     let s = Session::connect(World { ctx: world.ctx.clone(), wire: world.wire.clone(), cfg: world.cfg.clone(), server: world.server.clone() }, &cfg);
